@@ -114,10 +114,15 @@ func runApCase(raw json.RawMessage, w *TraceWriter) {
 			case "write":
 				var n int
 				var err error
+				wb := toBytes(op.Arg)
 				if op.H == "T" {
-					n, err = t.Write(toBytes(op.Arg))
+					n, err = t.Write(wb)
 				} else {
-					n, err = b.Write(toBytes(op.Arg))
+					n, err = b.Write(wb)
+				}
+				// an io.Writer must not keep the caller's slice: the caller reuses it at once
+				for i := range wb {
+					wb[i] = 0xEE
 				}
 				ret, errs = n, cls(err)
 			case "read":
